@@ -2056,4 +2056,62 @@ theorem format_plain_iff (t : List Char) (nargs : Nat) (kws : List (List Char))
         have h1 := hall m (by simp [hm])
         have h2 := accMsgs_nonlint nargs kws (fs.map (·.name)) 0 m (by rw [hm]; simp)
         rw [h1] at h2; cases h2
+/-! ## Part 4 — union-typed operands -/
+
+theorem pyaPercentU_single (b : Bool) (t : List Char) (a : Arg) : pyaPercentU b t [a] = pyaPercent b t a := rfl
+
+/-- every message for a member alone is also emitted for the union -/
+theorem union_member_subset (b : Bool) (t : List Char) (as : List Arg) (a : Arg) (ha : a ∈ as) :
+    ∀ e ∈ (pyaPercent b t a).errs, e ∈ (pyaPercentU b t as).errs := by
+  intro e he
+  simp only [pyaPercent, pyaPercentU, List.mem_append] at he ⊢
+  rcases he with he | he
+  · exact Or.inl he
+  · right
+    unfold acceptAllU
+    split
+    · rename_i a0
+      simp only [List.mem_singleton] at ha
+      subst ha; exact he
+    · unfold acceptAll at he
+      split
+      · rename_i hemp
+        simp only [hemp, if_true] at he
+        split at he
+        · exact he
+        · cases he
+      · rename_i hemp
+        simp only [hemp, Bool.false_eq_true, if_false] at he
+        split
+        · rename_i hnm
+          simp only [hnm, if_true] at he
+          exact List.mem_flatMap.mpr ⟨a, ha, he⟩
+        · rename_i hnm
+          simp only [hnm] at he
+          exact List.mem_flatMap.mpr ⟨a, ha, he⟩
+
+/-- every message for the union is `noSpecs` or a message for some member alone -/
+theorem union_from_members (b : Bool) (t : List Char) (as : List Arg) (hne : as ≠ []) :
+    ∀ e ∈ (pyaPercentU b t as).errs, e = .noSpecs ∨ ∃ a ∈ as, e ∈ (pyaPercent b t a).errs := by
+  intro e he
+  simp only [pyaPercent, pyaPercentU, List.mem_append] at he ⊢
+  rcases he with he | he
+  · cases as with
+    | nil => exact absurd rfl hne
+    | cons a _ => exact Or.inr ⟨a, by simp, Or.inl he⟩
+  · unfold acceptAllU at he
+    split at he
+    · rename_i a0
+      exact Or.inr ⟨a0, by simp, Or.inr he⟩
+    · split at he
+      · simp only [List.mem_singleton] at he; exact Or.inl he
+      · rename_i hemp
+        split at he
+        · rename_i hnm
+          obtain ⟨a, ha, hea⟩ := List.mem_flatMap.mp he
+          exact Or.inr ⟨a, ha, Or.inr (by simp only [acceptAll, hemp, Bool.false_eq_true, if_false, hnm, if_true]; exact hea)⟩
+        · rename_i hnm
+          obtain ⟨a, ha, hea⟩ := List.mem_flatMap.mp he
+          exact Or.inr ⟨a, ha, Or.inr (by simp only [acceptAll, hemp, Bool.false_eq_true, if_false, hnm]; exact hea)⟩
+
 end Pya.C17
